@@ -143,7 +143,7 @@ def nontrivial(case):
 def check(rep, tier, seed, driver):
     py2v_arch.report(rep)
     rng = random.Random(seed)
-    n = 300 if tier == "quick" else 6000
+    n = 300 if tier == "quick" else 2500
     rep.rule = ("(a) elitist archives, whole-history comparison, wild floats; (b) CMA-MAE and elitist archives, step-wise simulation from the "
                 "implementation's pre-state, histories generated against a live archive so that 30% of the objectives sit exactly at, one "
                 "ulp above or one ulp below the targeted cell's current threshold; Grid/CVT(kd,brute,chunk)/Sliding, float32/float64; "
@@ -171,4 +171,4 @@ def check(rep, tier, seed, driver):
     au.run_cases(rep, "C02", cases, compare=compare, oracle=oracle, nontrivial=nontrivial,
                  what="add feedback", broken="Model/Archive.v vs ribs/archives/_transforms.py + _archive_base.py",
                  theorems=["C02_pointwise", "C02_single_feedback", "C02_stored_has_status", "C02_single_eq_batch1"])
-    wide_input_cases(rep, rng, 60 if tier == "quick" else 1500)
+    wide_input_cases(rep, rng, 60 if tier == "quick" else 800)
